@@ -76,6 +76,13 @@ def locate(repo, relfile, path, cache):
         if not os.path.exists(full): raise ToolError("LOST-ANCHOR file %s does not exist" % relfile)
         src = open(full).read()
         toks, items = rustlex.top_items(src)
+        # The extractor drops `use` lines, so a renaming import (`use a::X as Y`) or a shadowing alias would make the
+        # verified text name something else than the code that runs: refuse (exit 2), never guess.
+        code = "\n".join(l.split("//")[0] for l in src.split("\n"))
+        for m in re.finditer(r"\buse\s+[^;]*;", code):
+            for a in re.finditer(r"\bas\s+([A-Za-z_][A-Za-z0-9_]*)", m.group(0)):
+                if a.group(1) != "_":
+                    raise ToolError("UNSUPPORTED %s: renaming import `%s` (the extractor resolves names textually)" % (relfile, rustlex.norm(m.group(0))[:120]))
         cache[full] = (src, items)
     src, items = cache[full]
     elems = [e.strip() for e in path.split("::") if e.strip()]
